@@ -1,4 +1,1000 @@
-//! C20: harness domain (stub).
+//! C20: Elixir wrappers (range, map set, date/time, exceptions, builders, derived structs) and the
+//! proplist/map helpers of `erltf::OwnedTerm`.
+//!
+//! T lines tie the Lean model (lean/EdpVerif/Impl/Elixir.lean) to the real code, P lines evaluate the Elixir-side
+//! Spec (lean/EdpVerif/Spec/Elixir.lean) on the implementation's answers, X lines are the property itself
+//! (round trips, nothing fabricated) checked on the implementation.  Failures that are one of the defects
+//! described in notes/C20.md carry a `kf-c20-…` class chosen by a predicate on the *input* (the trigger of that
+//! defect); everything else fails under a plain `c20-…` class.
+use crate::canon::{hex, hexarg, term_text};
+use crate::rng::Rng;
 use crate::Ctx;
+use edp_elixir_terms::{
+    ArgumentError, ArithmeticError, AtomKeyMapBuilder, BadFunctionError, BadMapError, CaseClauseError,
+    CondClauseError, ElixirDate, ElixirDateTime, ElixirExceptionExt, ElixirMapSet, ElixirNaiveDateTime,
+    ElixirRange, ElixirTime, FunctionClauseError, KeyError, KeywordListBuilder, MatchError, RuntimeError,
+    UndefinedFunctionError, WithClauseError,
+};
+use erltf::types::{Atom, BigInt};
+use erltf::OwnedTerm;
+use std::collections::BTreeMap;
+use std::panic::{catch_unwind, AssertUnwindSafe};
 
-pub fn run(_ctx: &mut Ctx) {}
+const MIN: i64 = i64::MIN;
+const MAX: i64 = i64::MAX;
+
+// ------------------------------------------------------------------------------------------------ ranges
+
+fn in_i64(x: i128) -> bool {
+    x >= MIN as i128 && x <= MAX as i128
+}
+
+fn out_usize(r: std::thread::Result<usize>) -> String {
+    match r {
+        Ok(n) => n.to_string(),
+        Err(_) => "panic".to_string(),
+    }
+}
+
+/// the arithmetic of `len()` leaves i64 (range.rs:82-84)
+fn len_trigger(f: i64, l: i64, s: i64, empty: bool) -> bool {
+    if empty {
+        return false;
+    }
+    let d = l as i128 - f as i128;
+    !in_i64(d) || d == MIN as i128 || s == MIN || d.abs() / (s as i128).abs() + 1 > MAX as i128
+}
+
+/// the arithmetic of `contains(v)` leaves i64 (range.rs:94/96)
+fn contains_trigger(f: i64, l: i64, s: i64, v: i64, empty: bool) -> bool {
+    if empty {
+        return false;
+    }
+    if s > 0 {
+        v >= f && v <= l && !in_i64(v as i128 - f as i128)
+    } else {
+        v <= f && v >= l && (!in_i64(f as i128 - v as i128) || s == MIN)
+    }
+}
+
+/// the arithmetic of `size_hint()` on a fresh iterator leaves i64 (range.rs:206/211)
+fn hint_trigger(f: i64, l: i64, s: i64, empty: bool) -> bool {
+    if empty {
+        return false;
+    }
+    if s > 0 {
+        let d = l as i128 - f as i128;
+        !in_i64(d) || d / s as i128 + 1 > MAX as i128
+    } else {
+        let d = f as i128 - l as i128;
+        !in_i64(d) || s == MIN || d / -(s as i128) + 1 > MAX as i128
+    }
+}
+
+/// `saturating_add` lands on a bound that equals `last` although the step does not reach it (range.rs:181/191)
+fn iter_trigger(f: i64, l: i64, s: i64, empty: bool) -> bool {
+    if empty {
+        return false;
+    }
+    if s > 0 {
+        l == MAX && (l as i128 - f as i128) % (s as i128) != 0
+    } else {
+        l == MIN && (f as i128 - l as i128) % -(s as i128) != 0
+    }
+}
+
+fn range_case(ctx: &mut Ctx, f: i64, l: i64, s: i64, v: i64, k: usize, all_v: Option<(i64, i64)>) {
+    let r = ElixirRange::new(f, l, s);
+    let empty = r.is_empty();
+    let len = catch_unwind(|| r.len());
+    let c = catch_unwind(|| r.contains(v));
+    let mut it = r.into_iter();
+    let sh = catch_unwind(AssertUnwindSafe(|| it.size_hint()));
+    let mut xs: Vec<i64> = Vec::new();
+    let mut ended = false;
+    for _ in 0..k {
+        match catch_unwind(AssertUnwindSafe(|| it.next())) {
+            Ok(Some(x)) => xs.push(x),
+            Ok(None) => {
+                ended = true;
+                break;
+            }
+            Err(_) => {
+                ctx.fail("c20-range-next-panics", &format!("range={},{},{}", f, l, s));
+                return;
+            }
+        }
+    }
+    let sh2 = catch_unwind(AssertUnwindSafe(|| it.size_hint()));
+    if let Ok((lo, hi)) = &sh {
+        if Some(*lo) != *hi {
+            ctx.fail("c20-range-sizehint-bounds-differ", &format!("range={},{},{} hint={:?}", f, l, s, sh));
+        }
+    }
+    let xs_text = if xs.is_empty() {
+        "-".to_string()
+    } else {
+        xs.iter().map(|x| x.to_string()).collect::<Vec<_>>().join(",")
+    };
+    let it_text = format!("{};{}", xs_text, if ended { "end" } else { "more" });
+    let c_text = match &c {
+        Ok(true) => "1",
+        Ok(false) => "0",
+        Err(_) => "panic",
+    };
+    let len_text = out_usize(len);
+    let sh_text = out_usize(sh.map(|x| x.0));
+    let sh2_text = out_usize(sh2.map(|x| x.0));
+    ctx.tie(
+        "range",
+        &format!("c20range {} {} {} {} {}", f, l, s, v, k),
+        &format!("e={} len={} c={} sh={} it={} sh2={}", empty as u8, len_text, c_text, sh_text, it_text, sh2_text),
+    );
+    ctx.count(if empty { "range_empty" } else { "range_nonempty" });
+    if len_text == "panic" {
+        ctx.count("range_len_panics");
+    }
+    if c_text == "panic" {
+        ctx.count("range_contains_panics");
+    }
+    if sh_text == "panic" {
+        ctx.count("range_sizehint_panics");
+    }
+    // the Elixir-side oracle on every answer
+    let lt = len_trigger(f, l, s, empty);
+    let ct = contains_trigger(f, l, s, v, empty);
+    let ht = hint_trigger(f, l, s, empty);
+    let itg = iter_trigger(f, l, s, empty);
+    ctx.prop(if lt { "kf-c20-range-len-overflow" } else { "gen" }, &format!("c20rlen {} {} {} {}", f, l, s, len_text), "ok");
+    ctx.prop(if ht { "kf-c20-range-sizehint-overflow" } else { "gen" }, &format!("c20rhint {} {} {} {}", f, l, s, sh_text), "ok");
+    ctx.prop(if ct { "kf-c20-range-contains-overflow" } else { "gen" }, &format!("c20rcont {} {} {} {} {}", f, l, s, v, c_text), "ok");
+    ctx.prop(if itg { "kf-c20-range-iter-saturates" } else { "gen" }, &format!("c20riter {} {} {} {} {}", f, l, s, k, it_text), "ok");
+    if let Some((lo, hi)) = all_v {
+        for w in lo..=hi {
+            let cw = match catch_unwind(|| r.contains(w)) {
+                Ok(true) => "1",
+                Ok(false) => "0",
+                Err(_) => "panic",
+            };
+            let t = contains_trigger(f, l, s, w, empty);
+            ctx.prop(if t { "kf-c20-range-contains-overflow" } else { "gen" }, &format!("c20rcont {} {} {} {} {}", f, l, s, w, cw), "ok");
+        }
+    }
+    // the property on the implementation alone: what the iterator yields is contained, and is as many as `len` says
+    for x in &xs {
+        match catch_unwind(|| r.contains(*x)) {
+            Ok(true) => {}
+            other => {
+                let class = if itg {
+                    "kf-c20-range-iter-saturates"
+                } else if contains_trigger(f, l, s, *x, empty) {
+                    "kf-c20-range-contains-overflow"
+                } else {
+                    "c20-range-yielded-not-contained"
+                };
+                ctx.fail(class, &format!("range={},{},{} yielded={} contains={:?}", f, l, s, x, other.ok()));
+                break;
+            }
+        }
+    }
+    if ended && len_text != xs.len().to_string() {
+        let class = if itg {
+            "kf-c20-range-iter-saturates"
+        } else if lt {
+            "kf-c20-range-len-overflow"
+        } else {
+            "c20-range-len-differs-from-iteration"
+        };
+        ctx.fail(class, &format!("range={},{},{} len={} iterated={}", f, l, s, len_text, xs.len()));
+    }
+}
+
+const RANGE_EXT: &[i64] = &[
+    MIN, MIN + 1, MIN + 2, -(1 << 62), -(1 << 40), -7, -3, -2, -1, 0, 1, 2, 3, 7, 10, 1 << 31, 1 << 40, 1 << 62,
+    MAX - 2, MAX - 1, MAX,
+];
+
+fn gen_range_val(r: &mut Rng) -> i64 {
+    match r.below(6) {
+        0 | 1 => *r.pick(RANGE_EXT),
+        2 => r.below(41) as i64 - 20,
+        3 => MAX - r.below(40) as i64,
+        4 => MIN + r.below(40) as i64,
+        _ => r.next() as i64,
+    }
+}
+
+fn gen_step(r: &mut Rng) -> i64 {
+    match r.below(8) {
+        0 => *r.pick(&[MIN, MIN + 1, MAX, MAX - 1, 0]),
+        1 | 2 => r.range(1, 9) as i64,
+        3 | 4 => -(r.range(1, 9) as i64),
+        5 => (r.next() >> r.range(1, 62)) as i64,
+        6 => -((r.next() >> r.range(1, 62)) as i64),
+        _ => *r.pick(&[1, -1, 2, -2]),
+    }
+}
+
+fn ranges(ctx: &mut Ctx) {
+    // witnesses of the recorded defects, always replayed
+    range_case(ctx, MIN, MAX, 1, 0, 3, None); // len, size_hint, contains(0): `last - first` / `value - first` overflow
+    range_case(ctx, MAX - 1, MAX, 2, MAX, 5, None); // saturating_add: iterates [MAX-1, MAX], contains(MAX) is false, len is 1
+    range_case(ctx, MIN + 1, MIN, -2, MIN, 5, None); // the same at the lower bound
+    range_case(ctx, 0, MAX, 1, 5, 3, None); // `diff / step + 1` overflows: the range has 2^63 elements
+    range_case(ctx, 0, -5, MIN, 0, 3, None); // `step.abs()` / `-step` of i64::MIN
+    range_case(ctx, 0, MIN, -1, -3, 3, None); // `(last - first).abs()` of i64::MIN
+    range_case(ctx, -1, MAX, 1, MAX, 3, None); // `last - first` overflow by one
+    // exhaustive small space: every (first, last, step) in [-4, 4]^3, every value in [-6, 6]
+    for f in -4i64..=4 {
+        for l in -4i64..=4 {
+            for s in -4i64..=4 {
+                range_case(ctx, f, l, s, (f + l) / 2, 12, Some((-6, 6)));
+            }
+        }
+    }
+    ctx.add("exhaustive", 1);
+    ctx.add("range_small_triples", 729);
+    // grid of extreme triples
+    let grid: &[i64] = &[MIN, MIN + 1, -(1 << 62), -2, 0, 3, 1 << 62, MAX - 1, MAX];
+    let steps: &[i64] = &[MIN, MIN + 1, -(1 << 62), -3, -1, 0, 1, 2, 1 << 62, MAX - 1, MAX];
+    for &f in grid {
+        for &l in grid {
+            for &s in steps {
+                let v = *ctx.rng.pick(&[f, l, 0, f.wrapping_add(s), l.wrapping_sub(s), MAX, MIN]);
+                range_case(ctx, f, l, s, v, 4, None);
+            }
+        }
+    }
+    ctx.add("range_extreme_grid", (grid.len() * grid.len() * steps.len()) as u64);
+    // seeded generation
+    let n = ctx.n(1500, 12000);
+    for _ in 0..n {
+        let f = gen_range_val(&mut ctx.rng);
+        let s = gen_step(&mut ctx.rng);
+        let l = match ctx.rng.below(4) {
+            // a last that is a few steps away from first
+            0 | 1 => f.saturating_add(s.saturating_mul(ctx.rng.below(12) as i64)).saturating_add(ctx.rng.below(3) as i64 - 1),
+            _ => gen_range_val(&mut ctx.rng),
+        };
+        let v = match ctx.rng.below(5) {
+            0 => f,
+            1 => l,
+            2 => f.wrapping_add(s.wrapping_mul(ctx.rng.below(6) as i64)),
+            3 => gen_range_val(&mut ctx.rng),
+            _ => f.wrapping_add(ctx.rng.below(30) as i64),
+        };
+        let k = ctx.rng.range(1, 14) as usize;
+        range_case(ctx, f, l, s, v, k, None);
+    }
+}
+
+// ------------------------------------------------------------------------------------------------ terms
+
+fn atom(s: &str) -> OwnedTerm {
+    OwnedTerm::Atom(Atom::new(s))
+}
+
+const STRS: &[&str] = &["", "a", "UTC", "Etc/UTC", "Europe/Berlin", "CET", "América/São_Paulo", "日本", "bad argument", "key :a not found", "Elixir.", "nil"];
+const ATOMS: &[&str] = &["a", "b", "ok", "error", "nil", "true", "false", "name", "age", "timeout", "__struct__", "zz", "Foo", "Elixir.Foo"];
+
+/// terms for which Rust's `Ord`-equality is structural equality and which the wire form preserves up to `wireNorm`
+fn gen_simple(r: &mut Rng, depth: u32) -> OwnedTerm {
+    let leaf = depth >= 3 || r.chance(3, 5);
+    if leaf {
+        return match r.below(9) {
+            0 | 1 => OwnedTerm::Integer(*r.pick(&[0i64, 1, 2, 255, 256, -1, 2147483647, 2147483648, -2147483648, -2147483649, 1 << 40, MAX, MIN, 7, 42])),
+            2 => OwnedTerm::Integer(r.below(50) as i64 - 10),
+            3 | 4 => atom(*r.pick(ATOMS)),
+            5 => OwnedTerm::Binary(r.pick(STRS).as_bytes().to_vec()),
+            6 => OwnedTerm::Float((r.below(200) as f64 - 100.0) + 0.5),
+            7 => {
+                // outside i64, minimal digits
+                let nd = 9 + r.below(3) as usize;
+                let mut d = r.bytes(nd);
+                *d.last_mut().unwrap() |= 1;
+                OwnedTerm::BigInt(BigInt::new(r.chance(1, 2), d))
+            }
+            _ => OwnedTerm::Binary(r.bytes(3)),
+        };
+    }
+    let n = r.range(1, 3) as usize;
+    match r.below(4) {
+        0 => OwnedTerm::Tuple((0..n).map(|_| gen_simple(r, depth + 1)).collect()),
+        1 => OwnedTerm::List((0..n).map(|_| gen_simple(r, depth + 1)).collect()),
+        2 => {
+            let mut m = BTreeMap::new();
+            for _ in 0..n {
+                m.insert(gen_key(r), gen_simple(r, depth + 1));
+            }
+            OwnedTerm::Map(m)
+        }
+        _ => OwnedTerm::Tuple(vec![atom(*r.pick(ATOMS)), gen_simple(r, depth + 1)]),
+    }
+}
+
+fn gen_key(r: &mut Rng) -> OwnedTerm {
+    match r.below(6) {
+        0..=2 => atom(*r.pick(ATOMS)),
+        3 => OwnedTerm::Binary(r.pick(STRS).as_bytes().to_vec()),
+        4 => OwnedTerm::Integer(r.below(5) as i64),
+        _ => OwnedTerm::Tuple(vec![atom(*r.pick(ATOMS)), OwnedTerm::Integer(r.below(3) as i64)]),
+    }
+}
+
+fn wire(t: &OwnedTerm) -> Option<OwnedTerm> {
+    let b = catch_unwind(|| erltf::encode(t)).ok()?.ok()?;
+    catch_unwind(|| erltf::decode(&b)).ok()?.ok()
+}
+
+// ------------------------------------------------------------------------------------------------ wrappers
+
+/// One wrapper value through `to_term`, `from_term`, the wire, and `from_term` again.
+#[allow(clippy::too_many_arguments)]
+fn wrapper_case<W: PartialEq + std::fmt::Debug>(
+    ctx: &mut Ctx,
+    kind: &str,
+    to_args: &str,
+    x: &W,
+    to_term: &dyn Fn(&W) -> OwnedTerm,
+    from_term: &dyn Fn(&OwnedTerm) -> Option<W>,
+    show: &dyn Fn(&W) -> String,
+    wire_image: &dyn Fn(&W) -> Option<W>,
+    mem_class: Option<&str>,
+    wire_class: Option<&str>,
+) {
+    ctx.count(&format!("wrapper_{}", kind.split(' ').next().unwrap()));
+    let t = match catch_unwind(AssertUnwindSafe(|| to_term(x))) {
+        Ok(t) => t,
+        Err(_) => {
+            ctx.tie("wrap", &format!("c20to {}", to_args), "panic");
+            ctx.fail("c20-to-term-panics", &format!("{} {:?}", kind, x));
+            return;
+        }
+    };
+    let tt = term_text(&t);
+    ctx.tie("wrap", &format!("c20to {}", to_args), &tt);
+    let r = catch_unwind(AssertUnwindSafe(|| from_term(&t))).unwrap_or(None);
+    let shown = r.as_ref().map(|v| show(v)).unwrap_or_else(|| "none".to_string());
+    ctx.tie("wrap", &format!("c20from {} {}", kind, tt), &shown);
+    if r.as_ref() != Some(x) {
+        ctx.fail(mem_class.unwrap_or("c20-roundtrip-memory"), &format!("{} value={:?} term={} back={}", kind, x, tt, shown));
+    }
+    // through encode + decode
+    let Some(t2) = wire(&t) else {
+        ctx.tie("wire", &format!("c20wire {}", tt), "err");
+        ctx.count("wire_encode_errors");
+        return;
+    };
+    let t2t = term_text(&t2);
+    ctx.tie("wire", &format!("c20wire {}", tt), &format!("ok {}", t2t));
+    let r2 = catch_unwind(AssertUnwindSafe(|| from_term(&t2))).unwrap_or(None);
+    let shown2 = r2.as_ref().map(|v| show(v)).unwrap_or_else(|| "none".to_string());
+    ctx.tie("wire", &format!("c20from {} {}", kind, t2t), &shown2);
+    let want = wire_image(x);
+    if want.is_none() || r2 != want {
+        ctx.fail(wire_class.unwrap_or("c20-roundtrip-wire"), &format!("{} value={:?} wire-term={} back={}", kind, x, t2t, shown2));
+    }
+}
+
+fn i32_fits(vals: &[i64]) -> bool {
+    vals.iter().all(|v| *v >= i32::MIN as i64 && *v <= i32::MAX as i64)
+}
+
+/// `from_term` on a term that did not come from `to_term`; when it answers, the integer fields of the answer must be
+/// the integers of the term (nothing fabricated by a truncating cast).
+fn hostile_case<W>(
+    ctx: &mut Ctx,
+    kind: &str,
+    t: &OwnedTerm,
+    from_term: &dyn Fn(&OwnedTerm) -> Option<W>,
+    to_term: &dyn Fn(&W) -> OwnedTerm,
+    show: &dyn Fn(&W) -> String,
+) {
+    let tt = term_text(t);
+    let r = match catch_unwind(AssertUnwindSafe(|| from_term(t))) {
+        Ok(r) => r,
+        Err(_) => {
+            ctx.tie("hostile", &format!("c20from {} {}", kind, tt), "panic");
+            ctx.fail("c20-from-term-panics", &format!("{} term={}", kind, tt));
+            return;
+        }
+    };
+    let shown = r.as_ref().map(|v| show(v)).unwrap_or_else(|| "none".to_string());
+    ctx.tie("hostile", &format!("c20from {} {}", kind, tt), &shown);
+    ctx.count(if r.is_some() { "hostile_accepted" } else { "hostile_rejected" });
+    if let (Some(x), OwnedTerm::Map(m)) = (&r, t) {
+        if let OwnedTerm::Map(back) = to_term(x) {
+            for (k, v) in &back {
+                let same = match (m.get(k), v) {
+                    (Some(OwnedTerm::Integer(a)), OwnedTerm::Integer(b)) => a == b,
+                    (Some(OwnedTerm::Tuple(a)), OwnedTerm::Tuple(b)) if a.len() == 2 && b.len() == 2 => {
+                        a.iter().zip(b.iter()).all(|(p, q)| match (p, q) {
+                            (OwnedTerm::Integer(p), OwnedTerm::Integer(q)) => p == q,
+                            _ => true,
+                        })
+                    }
+                    _ => true,
+                };
+                if !same {
+                    ctx.fail(
+                        "kf-c20-from-term-truncates",
+                        &format!("{} term={} field={} in-term={} fabricated={}", kind, tt, term_text(k), m.get(k).map(term_text).unwrap_or_default(), term_text(v)),
+                    );
+                    break;
+                }
+            }
+        }
+    }
+}
+
+/// byte strings that are not UTF-8: `as_erlang_string` decodes them lossily
+const BAD_UTF8: &[&[u8]] = &[
+    b"\x80", b"a\xc3", b"\xc3\x28", b"\xc0\x80", b"\xc1\xbf", b"\xe0\x80\x80", b"\xe0\xa0", b"\xe2\x82", b"\xe2\x28\xa1",
+    b"\xed\xa0\x80", b"\xed\x9f\xbf", b"\xf0\x80\x80\x80", b"\xf0\x90\x80", b"\xf0\x9f\x98", b"\xf4\x90\x80\x80", b"\xf4\x8f\xbf\xbf",
+    b"\xf5\x80\x80\x80", b"\xff", b"ok\xe2\x82\xac\xf0\x9f", b"\xf0\x9f\x98\x80\x80", b"\xe1\x80\xe1\x80\x80", b"\xf1\x80\x80\x41",
+];
+
+const BAD_INTS: &[i64] = &[256, 300, -1, 1 << 32, (1 << 32) + 5, MAX, MIN, 1 << 40, -129, 65548, 2147483648, -2147483649, 255, 0, 12];
+
+/// mutate a struct map: out-of-range integers, wrong types, missing keys, foreign struct names, wrong shapes
+fn mutate(r: &mut Rng, t: &OwnedTerm) -> OwnedTerm {
+    let OwnedTerm::Map(m0) = t else { return t.clone() };
+    let mut m = m0.clone();
+    let keys: Vec<OwnedTerm> = m.keys().cloned().collect();
+    let n = r.range(1, 2);
+    for _ in 0..n {
+        let k = r.pick(&keys).clone();
+        match r.below(12) {
+            0..=3 => {
+                // an integer the field type cannot hold
+                match m.get(&k) {
+                    Some(OwnedTerm::Tuple(_)) => {
+                        m.insert(k, OwnedTerm::Tuple(vec![OwnedTerm::Integer(*r.pick(BAD_INTS)), OwnedTerm::Integer(*r.pick(BAD_INTS))]));
+                    }
+                    _ => {
+                        m.insert(k, OwnedTerm::Integer(*r.pick(BAD_INTS)));
+                    }
+                }
+            }
+            4 => {
+                m.insert(k, gen_simple(r, 2));
+            }
+            5 => {
+                m.remove(&k);
+            }
+            6 => {
+                m.insert(atom("__struct__"), r.pick(&[atom("Elixir.Other"), atom("Elixir.Date"), atom("Elixir.Range"), OwnedTerm::Binary(b"Elixir.Date".to_vec()), atom("Elixir.MapSet")]).clone());
+            }
+            7 => {
+                m.insert(atom("microsecond"), r.pick(&[
+                    OwnedTerm::Tuple(vec![OwnedTerm::Integer(1), OwnedTerm::Integer(2), OwnedTerm::Integer(3)]),
+                    OwnedTerm::Integer(5),
+                    OwnedTerm::Tuple(vec![atom("a"), OwnedTerm::Integer(2)]),
+                    OwnedTerm::Tuple(vec![OwnedTerm::Integer(1), OwnedTerm::Float(2.5)]),
+                    OwnedTerm::Tuple(vec![OwnedTerm::Integer(1 << 33), OwnedTerm::Integer(256 + 3)]),
+                    OwnedTerm::Tuple(vec![OwnedTerm::BigInt(BigInt::new(false, vec![0, 0, 0, 0, 1])), OwnedTerm::Integer(6)]),
+                ]).clone());
+            }
+            8 => {
+                m.insert(atom(*r.pick(ATOMS)), gen_simple(r, 2));
+            }
+            9 => {
+                // string-like fields in their other accepted and rejected shapes
+                let s = r.pick(STRS);
+                let v = match r.below(7) {
+                    5 | 6 => OwnedTerm::Binary(r.pick(BAD_UTF8).to_vec()),
+                    0 => OwnedTerm::String(s.to_string()),
+                    1 => OwnedTerm::List(s.bytes().map(|b| OwnedTerm::Integer(b as i64)).collect()),
+                    2 => OwnedTerm::List(vec![OwnedTerm::Integer(65), OwnedTerm::Integer(256)]),
+                    3 => atom(s),
+                    _ => OwnedTerm::Nil,
+                };
+                m.insert(k, v);
+            }
+            10 => {
+                m.insert(k, OwnedTerm::BigInt(BigInt::new(r.chance(1, 2), vec![1, 0, 0, 0, 1])));
+            }
+            _ => {
+                m.insert(k, atom(*r.pick(&["nil", "Elixir.Foo", "set", "x"])));
+            }
+        }
+    }
+    match r.below(30) {
+        0 => OwnedTerm::Tuple(vec![OwnedTerm::Map(m)]),
+        1 => OwnedTerm::List(vec![OwnedTerm::Map(m)]),
+        2 => OwnedTerm::Nil,
+        _ => OwnedTerm::Map(m),
+    }
+}
+
+fn gen_u8(r: &mut Rng) -> u8 {
+    match r.below(3) {
+        0 => *r.pick(&[0u8, 1, 12, 13, 23, 24, 28, 29, 30, 31, 59, 60, 127, 128, 255]),
+        _ => r.next() as u8,
+    }
+}
+fn gen_i32(r: &mut Rng) -> i32 {
+    match r.below(3) {
+        0 => *r.pick(&[i32::MIN, i32::MAX, 0, -1, 1, 1970, 2025, 9999, 10000, 3600, -18000]),
+        1 => r.range(1900, 2100) as i32,
+        _ => r.next() as i32,
+    }
+}
+fn gen_us(r: &mut Rng) -> u32 {
+    match r.below(3) {
+        0 => *r.pick(&[0u32, 1, 999_999, 1_000_000, (1 << 31) - 1, 1 << 31, u32::MAX]),
+        1 => r.below(1_000_000) as u32,
+        _ => r.next() as u32,
+    }
+}
+fn gen_prec(r: &mut Rng) -> u8 {
+    *r.pick(&[0u8, 1, 2, 3, 4, 5, 6, 6, 7, 255])
+}
+
+fn show_range(r: &ElixirRange) -> String {
+    format!("R({},{},{})", r.first, r.last, r.step)
+}
+fn show_date(d: &ElixirDate) -> String {
+    format!("D({},{},{})", d.year, d.month, d.day)
+}
+fn show_time(t: &ElixirTime) -> String {
+    format!("T({},{},{},{},{})", t.hour, t.minute, t.second, t.microsecond_value, t.microsecond_precision)
+}
+fn show_naive(x: &ElixirNaiveDateTime) -> String {
+    format!("N({},{},{},{},{},{},{},{})", x.year, x.month, x.day, x.hour, x.minute, x.second, x.microsecond_value, x.microsecond_precision)
+}
+fn show_dt(x: &ElixirDateTime) -> String {
+    format!(
+        "Z({},{},{},{},{},{},{},{},{},{},{},{})",
+        x.year, x.month, x.day, x.hour, x.minute, x.second, x.microsecond_value, x.microsecond_precision,
+        hex(x.time_zone.as_bytes()), hex(x.zone_abbr.as_bytes()), x.utc_offset, x.std_offset
+    )
+}
+fn show_set(s: &ElixirMapSet) -> String {
+    format!("M[{}]", s.iter().map(term_text).collect::<Vec<_>>().join(","))
+}
+fn opt_hex(s: &Option<String>) -> String {
+    match s {
+        None => "-".to_string(),
+        Some(s) => format!("={}", hex(s.as_bytes())),
+    }
+}
+fn opt_term(t: &Option<OwnedTerm>) -> String {
+    match t {
+        None => "-".to_string(),
+        Some(t) => format!("={}", term_text(t)),
+    }
+}
+fn show_key(e: &KeyError) -> String {
+    format!("K({};{};{})", term_text(&e.key), term_text(&e.term), opt_hex(&e.message))
+}
+fn show_undef(e: &UndefinedFunctionError) -> String {
+    format!("UF({},{},{},{})", hex(e.module.as_bytes()), hex(e.function.as_bytes()), e.arity, opt_hex(&e.reason))
+}
+fn show_fncl(e: &FunctionClauseError) -> String {
+    format!(
+        "FC({},{},{},{})",
+        opt_hex(&e.module),
+        opt_hex(&e.function),
+        e.arity.map(|a| format!("={}", a)).unwrap_or_else(|| "-".to_string()),
+        opt_term(&e.args)
+    )
+}
+
+fn wrappers(ctx: &mut Ctx) {
+    let n = ctx.n(120, 500);
+    // ---- ranges as terms
+    let mut triples: Vec<(i64, i64, i64)> = vec![(1, 10, 1), (10, 1, -1), (0, 0, 0), (MIN, MAX, 1), (1 << 40, 5, 2), (1, 2147483648, 3), (-2147483649, 0, 1), (2147483647, -2147483648, 1)];
+    for _ in 0..n {
+        triples.push((gen_range_val(&mut ctx.rng), gen_range_val(&mut ctx.rng), gen_step(&mut ctx.rng)));
+    }
+    for (f, l, s) in triples {
+        let x = ElixirRange::new(f, l, s);
+        let fits = i32_fits(&[f, l, s]);
+        wrapper_case(
+            ctx, "range", &format!("range {} {} {}", f, l, s), &x,
+            &|x| (*x).into(), &ElixirRange::from_term, &show_range, &|x| Some(*x),
+            None, if fits { None } else { Some("kf-c20-wire-bigint-field") },
+        );
+        let t: OwnedTerm = x.into();
+        let h = mutate(&mut ctx.rng, &t);
+        hostile_case(ctx, "range", &h, &ElixirRange::from_term, &|x| (*x).into(), &show_range);
+    }
+    // ---- dates and times
+    for i in 0..n {
+        let r = &mut ctx.rng;
+        let d = ElixirDate { year: gen_i32(r), month: gen_u8(r), day: gen_u8(r) };
+        let tm = ElixirTime { hour: gen_u8(r), minute: gen_u8(r), second: gen_u8(r), microsecond_value: gen_us(r), microsecond_precision: gen_prec(r) };
+        let nv = ElixirNaiveDateTime {
+            year: gen_i32(r), month: gen_u8(r), day: gen_u8(r), hour: gen_u8(r), minute: gen_u8(r), second: gen_u8(r),
+            microsecond_value: gen_us(r), microsecond_precision: gen_prec(r),
+        };
+        let dt = ElixirDateTime {
+            year: gen_i32(r), month: gen_u8(r), day: gen_u8(r), hour: gen_u8(r), minute: gen_u8(r), second: gen_u8(r),
+            microsecond_value: gen_us(r), microsecond_precision: gen_prec(r),
+            time_zone: r.pick(STRS).to_string(), zone_abbr: r.pick(STRS).to_string(), utc_offset: gen_i32(r), std_offset: gen_i32(r),
+        };
+        wrapper_case(
+            ctx, "date", &format!("date {} {} {}", d.year, d.month, d.day), &d,
+            &|x| (*x).into(), &ElixirDate::from_term, &show_date, &|x| Some(*x), None, None,
+        );
+        let us_fits = |v: u32| v <= i32::MAX as u32;
+        wrapper_case(
+            ctx, "time", &format!("time {} {} {} {} {}", tm.hour, tm.minute, tm.second, tm.microsecond_value, tm.microsecond_precision), &tm,
+            &|x| (*x).into(), &ElixirTime::from_term, &show_time, &|x| Some(*x),
+            None, if us_fits(tm.microsecond_value) { None } else { Some("kf-c20-wire-bigint-field") },
+        );
+        wrapper_case(
+            ctx, "naive",
+            &format!("naive {} {} {} {} {} {} {} {}", nv.year, nv.month, nv.day, nv.hour, nv.minute, nv.second, nv.microsecond_value, nv.microsecond_precision),
+            &nv, &|x| (*x).into(), &ElixirNaiveDateTime::from_term, &show_naive, &|x| Some(*x),
+            None, if us_fits(nv.microsecond_value) { None } else { Some("kf-c20-wire-bigint-field") },
+        );
+        wrapper_case(
+            ctx, "datetime",
+            &format!(
+                "datetime {} {} {} {} {} {} {} {} {} {} {} {}",
+                dt.year, dt.month, dt.day, dt.hour, dt.minute, dt.second, dt.microsecond_value, dt.microsecond_precision,
+                hexarg(dt.time_zone.as_bytes()), hexarg(dt.zone_abbr.as_bytes()), dt.utc_offset, dt.std_offset
+            ),
+            &dt, &|x| x.clone().into(), &ElixirDateTime::from_term, &show_dt, &|x| Some(x.clone()),
+            None, if us_fits(dt.microsecond_value) { None } else { Some("kf-c20-wire-bigint-field") },
+        );
+        // hostile variants: month 300, day -1, microsecond 2^33, wrong types, missing keys, foreign struct, …
+        let reps = if i < 4 { 6 } else { 2 };
+        for _ in 0..reps {
+            let h = mutate(&mut ctx.rng, &d.into());
+            hostile_case(ctx, "date", &h, &ElixirDate::from_term, &|x| (*x).into(), &show_date);
+            let h = mutate(&mut ctx.rng, &tm.into());
+            hostile_case(ctx, "time", &h, &ElixirTime::from_term, &|x| (*x).into(), &show_time);
+            let h = mutate(&mut ctx.rng, &nv.into());
+            hostile_case(ctx, "naive", &h, &ElixirNaiveDateTime::from_term, &|x| (*x).into(), &show_naive);
+            let h = mutate(&mut ctx.rng, &dt.clone().into());
+            hostile_case(ctx, "datetime", &h, &ElixirDateTime::from_term, &|x| x.clone().into(), &show_dt);
+        }
+    }
+    // exhaustive sweep of one u8 field: every month in -3..=300 (and a few wider values) in an otherwise valid date
+    for v in (-3i64..=300).chain([511, 512, 65535, 65536 + 7, 1 << 32, (1 << 32) + 12, MAX, MIN]) {
+        let mut m = BTreeMap::new();
+        m.insert(atom("__struct__"), atom("Elixir.Date"));
+        m.insert(atom("year"), OwnedTerm::Integer(2025));
+        m.insert(atom("month"), OwnedTerm::Integer(v));
+        m.insert(atom("day"), OwnedTerm::Integer(1));
+        m.insert(atom("calendar"), atom("Elixir.Calendar.ISO"));
+        hostile_case(ctx, "date", &OwnedTerm::Map(m), &ElixirDate::from_term, &|x| (*x).into(), &show_date);
+    }
+    ctx.add("date_month_sweep", 312);
+    // the recorded witness: month 300 comes back as 44
+    {
+        let mut m = BTreeMap::new();
+        m.insert(atom("__struct__"), atom("Elixir.Date"));
+        m.insert(atom("year"), OwnedTerm::Integer(2025));
+        m.insert(atom("month"), OwnedTerm::Integer(300));
+        m.insert(atom("day"), OwnedTerm::Integer(1));
+        m.insert(atom("calendar"), atom("Elixir.Calendar.ISO"));
+        hostile_case(ctx, "date", &OwnedTerm::Map(m), &ElixirDate::from_term, &|x| (*x).into(), &show_date);
+    }
+    // ---- map sets
+    for _ in 0..n {
+        let k = ctx.rng.below(6) as usize;
+        let vals: Vec<OwnedTerm> = (0..k).map(|_| gen_simple(&mut ctx.rng, 1)).collect();
+        let mut set = ElixirMapSet::new();
+        for v in &vals {
+            set.insert(v.clone());
+        }
+        let collected: ElixirMapSet = vals.iter().cloned().collect();
+        if collected != set {
+            ctx.fail("c20-mapset-collect-differs-from-insert", &format!("values={}", term_text(&OwnedTerm::List(vals.clone()))));
+        }
+        let arg = term_text(&OwnedTerm::List(vals.clone()));
+        wrapper_case(
+            ctx, "mapset", &format!("mapset {}", arg), &set,
+            &|x| x.clone().into(), &ElixirMapSet::from_term, &show_set,
+            &|x| {
+                let mut s = ElixirMapSet::new();
+                for e in x.iter() {
+                    s.insert(wire(e)?);
+                }
+                Some(s)
+            },
+            None, None,
+        );
+        let t: OwnedTerm = set.clone().into();
+        let h = mutate(&mut ctx.rng, &t);
+        hostile_case(ctx, "mapset", &h, &ElixirMapSet::from_term, &|x| x.clone().into(), &show_set);
+    }
+    // ---- exceptions
+    for _ in 0..n {
+        let msg = ctx.rng.pick(STRS).to_string();
+        let a = gen_simple(&mut ctx.rng, 1);
+        let b = gen_simple(&mut ctx.rng, 1);
+        let h = hexarg(msg.as_bytes());
+        macro_rules! msg_exc {
+            ($ty:ident, $name:expr) => {{
+                wrapper_case(
+                    ctx, concat!("msg ", $name), &format!("msg {} {}", $name, h), &$ty::new(msg.clone()),
+                    &|x: &$ty| x.to_term(), &$ty::from_term, &|x: &$ty| format!("E{}", hex(x.message.as_bytes())), &|x: &$ty| Some(x.clone()), None, None,
+                );
+            }};
+        }
+        macro_rules! term_exc {
+            ($ty:ident, $name:expr) => {{
+                wrapper_case(
+                    ctx, concat!("texc ", $name), &format!("texc {} {}", $name, term_text(&a)), &$ty::new(a.clone()),
+                    &|x: &$ty| x.to_term(), &$ty::from_term, &|x: &$ty| format!("X{}", term_text(&x.term)),
+                    &|x: &$ty| Some($ty::new(wire(&x.term)?)), None, None,
+                );
+            }};
+        }
+        match ctx.rng.below(3) {
+            0 => msg_exc!(ArgumentError, "argument"),
+            1 => msg_exc!(RuntimeError, "runtime"),
+            _ => msg_exc!(ArithmeticError, "arithmetic"),
+        }
+        match ctx.rng.below(5) {
+            0 => term_exc!(MatchError, "match"),
+            1 => term_exc!(BadMapError, "badmap"),
+            2 => term_exc!(BadFunctionError, "badfun"),
+            3 => term_exc!(CaseClauseError, "caseclause"),
+            _ => term_exc!(WithClauseError, "withclause"),
+        }
+        wrapper_case(
+            ctx, "cond", "cond", &CondClauseError::new(),
+            &|x: &CondClauseError| x.to_term(), &CondClauseError::from_term, &|_| "C".to_string(), &|x| Some(x.clone()), None, None,
+        );
+        let kmsg = if ctx.rng.chance(1, 2) { Some(ctx.rng.pick(STRS).to_string()) } else { None };
+        let ke = KeyError { key: a.clone(), term: b.clone(), message: kmsg };
+        wrapper_case(
+            ctx, "keyerr", &format!("keyerr {} {} {}", term_text(&ke.key), term_text(&ke.term), opt_hex(&ke.message)), &ke,
+            &|x: &KeyError| x.to_term(), &KeyError::from_term, &show_key,
+            &|x: &KeyError| Some(KeyError { key: wire(&x.key)?, term: wire(&x.term)?, message: x.message.clone() }), None, None,
+        );
+        let mods = ["Foo", "Foo.Bar", "Elixir.Foo", "Elixir.", "foo", "", "Elixir", "Kernel"];
+        let module = ctx.rng.pick(&mods).to_string();
+        let function = ctx.rng.pick(&["bar", "nil", "", "baz!"]).to_string();
+        let reason = if ctx.rng.chance(1, 2) { Some(ctx.rng.pick(STRS).to_string()) } else { None };
+        let ue = UndefinedFunctionError { module: module.clone(), function: function.clone(), arity: gen_u8(&mut ctx.rng), reason };
+        let prefixed = module.starts_with("Elixir.");
+        wrapper_case(
+            ctx, "undef", &format!("undef {} {} {} {}", hexarg(ue.module.as_bytes()), hexarg(ue.function.as_bytes()), ue.arity, opt_hex(&ue.reason)), &ue,
+            &|x: &UndefinedFunctionError| x.to_term(), &UndefinedFunctionError::from_term, &show_undef, &|x| Some(x.clone()),
+            if prefixed { Some("kf-c20-exception-module-prefix") } else { None },
+            if prefixed { Some("kf-c20-exception-module-prefix") } else { None },
+        );
+        let fm = if ctx.rng.chance(3, 4) { Some(ctx.rng.pick(&mods).to_string()) } else { None };
+        let ff = if ctx.rng.chance(3, 4) { Some(ctx.rng.pick(&["bar", "nil", "baz!"]).to_string()) } else { None };
+        let fa = if ctx.rng.chance(3, 4) { Some(gen_u8(&mut ctx.rng)) } else { None };
+        // `Some(nil)` is left out: the atom `nil` is how an absent `args` is written, so the two cannot be told apart
+        let fg = if ctx.rng.chance(3, 4) { Some(if ctx.rng.chance(1, 8) { OwnedTerm::List(vec![]) } else { OwnedTerm::List(vec![a.clone(), b.clone()]) }) } else { None };
+        let fe = FunctionClauseError { module: fm.clone(), function: ff.clone(), arity: fa, args: fg.clone() };
+        // triggers of the recorded defects: an absent module/function comes back as Some("nil"), a prefixed module loses the prefix
+        let nil_trigger = fm.is_none() || ff.is_none();
+        let pre_trigger = fm.as_deref().is_some_and(|m| m.starts_with("Elixir."));
+        let class = if nil_trigger {
+            Some("kf-c20-exception-none-becomes-nil")
+        } else if pre_trigger {
+            Some("kf-c20-exception-module-prefix")
+        } else {
+            None
+        };
+        wrapper_case(
+            ctx, "fncl",
+            &format!("fncl {} {} {} {}", opt_hex(&fe.module), opt_hex(&fe.function), fe.arity.map(|a| format!("={}", a)).unwrap_or_else(|| "-".to_string()), opt_term(&fe.args)),
+            &fe, &|x: &FunctionClauseError| x.to_term(), &FunctionClauseError::from_term, &show_fncl,
+            &|x: &FunctionClauseError| {
+                Some(FunctionClauseError {
+                    module: x.module.clone(), function: x.function.clone(), arity: x.arity,
+                    args: match &x.args { Some(t) => Some(wire(t)?), None => None },
+                })
+            },
+            class, class,
+        );
+        // hostile exception terms
+        let h = mutate(&mut ctx.rng, &ue.to_term());
+        hostile_case(ctx, "undef", &h, &UndefinedFunctionError::from_term, &|x: &UndefinedFunctionError| x.to_term(), &show_undef);
+        let h = mutate(&mut ctx.rng, &fe.to_term());
+        hostile_case(ctx, "fncl", &h, &FunctionClauseError::from_term, &|x: &FunctionClauseError| x.to_term(), &show_fncl);
+        let h = mutate(&mut ctx.rng, &ke.to_term());
+        hostile_case(ctx, "keyerr", &h, &KeyError::from_term, &|x: &KeyError| x.to_term(), &show_key);
+        let h = mutate(&mut ctx.rng, &ArgumentError::new(msg.clone()).to_term());
+        hostile_case(ctx, "msg argument", &h, &ArgumentError::from_term, &|x: &ArgumentError| x.to_term(), &|x: &ArgumentError| format!("E{}", hex(x.message.as_bytes())));
+        let h = mutate(&mut ctx.rng, &MatchError::new(a.clone()).to_term());
+        hostile_case(ctx, "texc match", &h, &MatchError::from_term, &|x: &MatchError| x.to_term(), &|x: &MatchError| format!("X{}", term_text(&x.term)));
+    }
+    // the recorded witness: the empty FunctionClauseError
+    {
+        let fe = FunctionClauseError::empty();
+        wrapper_case(
+            ctx, "fncl", "fncl - - - -", &fe, &|x: &FunctionClauseError| x.to_term(), &FunctionClauseError::from_term, &show_fncl,
+            &|x: &FunctionClauseError| Some(x.clone()), Some("kf-c20-exception-none-becomes-nil"), Some("kf-c20-exception-none-becomes-nil"),
+        );
+    }
+}
+
+// ------------------------------------------------------------------------------------------------ proplists, builders
+
+fn res_text(r: Result<OwnedTerm, erltf::errors::TermConversionError>) -> String {
+    match r {
+        Ok(t) => format!("ok {}", term_text(&t)),
+        Err(_) => "err".to_string(),
+    }
+}
+
+fn gen_proplist(r: &mut Rng, depth: u32) -> OwnedTerm {
+    let n = r.below(6) as usize;
+    let mut v = Vec::new();
+    for _ in 0..n {
+        let key = match r.below(8) {
+            0..=4 => atom(*r.pick(&["a", "b", "c", "name", "age", "ok"])),
+            5 => OwnedTerm::Binary(r.pick(&["a", "k", ""]).as_bytes().to_vec()),
+            6 => OwnedTerm::String(r.pick(&["a", "s"]).to_string()),
+            _ => OwnedTerm::Integer(r.below(3) as i64),
+        };
+        let val = if depth < 2 && r.chance(1, 4) { gen_proplist(r, depth + 1) } else { gen_simple(r, 2) };
+        v.push(match r.below(10) {
+            0 | 1 => match key {
+                OwnedTerm::Atom(_) => key,
+                _ => atom("flag"),
+            },
+            2 if depth > 0 || r.chance(1, 3) => r.pick(&[
+                OwnedTerm::Tuple(vec![atom("a"), OwnedTerm::Integer(1), OwnedTerm::Integer(2)]),
+                OwnedTerm::Integer(7),
+                OwnedTerm::Tuple(vec![]),
+                OwnedTerm::Nil,
+            ]).clone(),
+            _ => OwnedTerm::Tuple(vec![key, val]),
+        });
+    }
+    OwnedTerm::List(v)
+}
+
+fn proplists(ctx: &mut Ctx) {
+    let n = ctx.n(500, 3000);
+    for i in 0..n {
+        let t = match ctx.rng.below(10) {
+            0 => gen_simple(&mut ctx.rng, 0),
+            1 => OwnedTerm::Nil,
+            2 => {
+                let mut m = BTreeMap::new();
+                for _ in 0..ctx.rng.below(5) {
+                    m.insert(gen_key(&mut ctx.rng), if ctx.rng.chance(1, 3) { gen_proplist(&mut ctx.rng, 1) } else { gen_simple(&mut ctx.rng, 2) });
+                }
+                OwnedTerm::Map(m)
+            }
+            _ => gen_proplist(&mut ctx.rng, 0),
+        };
+        let tt = term_text(&t);
+        ctx.count(&format!("proplist_input_{}", crate::c01::variant(&t)));
+        ctx.tie("plist", &format!("c20isp {}", tt), if t.is_proplist() { "1" } else { "0" });
+        let norm = t.normalize_proplist();
+        let p2m = t.proplist_to_map();
+        let m2p = t.map_to_proplist();
+        ctx.tie("plist", &format!("c20norm {}", tt), &res_text(norm.clone()));
+        ctx.tie("plist", &format!("c20p2m {}", tt), &res_text(p2m.clone()));
+        ctx.tie("plist", &format!("c20m2p {}", tt), &res_text(m2p.clone()));
+        ctx.tie("plist", &format!("c20rec {}", tt), &res_text(t.to_map_recursive()));
+        let k = *ctx.rng.pick(&["a", "b", "name", "zz"]);
+        ctx.tie(
+            "plist",
+            &format!("c20pget {} {}", tt, hex(k.as_bytes())),
+            &t.proplist_get_atom_key(k).map(|x| format!("ok {}", term_text(x))).unwrap_or_else(|| "none".to_string()),
+        );
+        // the property on the implementation
+        if let (Ok(nrm), Ok(m)) = (&norm, &p2m) {
+            if matches!(t, OwnedTerm::List(_)) {
+                // normalising first changes nothing
+                if nrm.proplist_to_map().ok().as_ref() != Some(m) {
+                    ctx.fail("c20-proplist-normalize-changes-map", &format!("proplist={}", tt));
+                }
+                // distinct keys: map and back is the normalised proplist, in key order
+                if let (OwnedTerm::List(els), OwnedTerm::Map(mm)) = (nrm, m) {
+                    if els.len() == mm.len() {
+                        let mut want = els.clone();
+                        want.sort();
+                        if m.map_to_proplist().ok() != Some(OwnedTerm::List(want)) {
+                            ctx.fail("c20-proplist-map-proplist-loses", &format!("proplist={}", tt));
+                        }
+                        ctx.count("proplist_distinct_keys");
+                    } else {
+                        ctx.count("proplist_duplicate_keys");
+                    }
+                }
+            }
+        }
+        if let OwnedTerm::Map(_) = &t {
+            // map → proplist → map is the identity
+            let back = m2p.as_ref().ok().and_then(|p| p.proplist_to_map().ok());
+            if back.as_ref() != Some(&t) {
+                ctx.fail("c20-map-proplist-map-loses", &format!("map={}", tt));
+            }
+        }
+        // builders: the same pairs through KeywordListBuilder and AtomKeyMapBuilder
+        if i % 3 == 0 {
+            let np = ctx.rng.below(6) as usize;
+            let pairs: Vec<(String, OwnedTerm)> = (0..np).map(|_| (ctx.rng.pick(ATOMS).to_string(), gen_simple(&mut ctx.rng, 2))).collect();
+            let mut kw = KeywordListBuilder::new();
+            let mut akm = AtomKeyMapBuilder::new();
+            for (k, v) in &pairs {
+                kw = kw.put_term(k, v.clone());
+                akm = akm.insert_term(k, v.clone());
+            }
+            let arg = term_text(&OwnedTerm::List(pairs.iter().map(|(k, v)| OwnedTerm::Tuple(vec![atom(k), v.clone()])).collect()));
+            let kwt = kw.build();
+            let module = *ctx.rng.pick(&["MyApp.User", "Foo", ""]);
+            let st = akm.clone().build_struct(module);
+            let akt = akm.build();
+            ctx.tie("build", &format!("c20kw {}", arg), &term_text(&kwt));
+            ctx.tie("build", &format!("c20akm {}", arg), &term_text(&akt));
+            ctx.tie("build", &format!("c20akms {} {}", arg, hexarg(module.as_bytes())), &term_text(&st));
+            if !kwt.is_proplist() || kwt.proplist_to_map().ok().as_ref() != Some(&akt) {
+                ctx.fail("c20-builders-disagree", &format!("pairs={}", arg));
+            }
+            let full = format!("Elixir.{}", module);
+            if st.elixir_struct_module() != Some(full.as_str()) {
+                ctx.fail("c20-build-struct-module", &format!("pairs={} module={}", arg, module));
+            }
+        }
+    }
+}
+
+// ------------------------------------------------------------------------------------------------ derived structs
+
+#[derive(Debug, PartialEq, Clone, erltf_serde::ElixirStruct)]
+#[elixir_module = "MyApp.User"]
+struct User {
+    name: String,
+    age: i32,
+    active: bool,
+    tags: Vec<String>,
+}
+
+/// `#[derive(ElixirStruct)]`: value → term → value, also through bytes; a foreign `__struct__` is rejected.
+/// (Not modelled in Lean: the derive expands to calls into erltf_serde, which is C15's subject.)
+fn derived(ctx: &mut Ctx) {
+    let n = ctx.n(60, 1500);
+    for _ in 0..n {
+        let r = &mut ctx.rng;
+        let u = User {
+            name: r.pick(STRS).to_string(),
+            age: gen_i32(r),
+            active: r.chance(1, 2),
+            tags: (0..r.below(3)).map(|_| r.pick(STRS).to_string()).collect(),
+        };
+        ctx.count("derived_struct_cases");
+        let t = match catch_unwind(|| erltf_serde::to_term(&u)) {
+            Ok(Ok(t)) => t,
+            other => {
+                ctx.fail("c20-derive-to-term-fails", &format!("{:?} -> {:?}", u, other.map(|r| r.map(|t| term_text(&t)).map_err(|e| e.to_string()))));
+                continue;
+            }
+        };
+        if t.elixir_struct_module() != Some("Elixir.MyApp.User") {
+            ctx.fail("c20-derive-struct-name", &format!("{:?} term={}", u, term_text(&t)));
+        }
+        let back: Option<User> = catch_unwind(|| erltf_serde::from_term::<User>(&t).ok()).unwrap_or(None);
+        if back.as_ref() != Some(&u) {
+            ctx.fail("c20-derive-roundtrip-memory", &format!("{:?} term={} back={:?}", u, term_text(&t), back));
+        }
+        let bytes = catch_unwind(|| erltf_serde::to_bytes(&u).ok()).unwrap_or(None);
+        let back2: Option<User> = bytes.as_ref().and_then(|b| catch_unwind(|| erltf_serde::from_bytes::<User>(b).ok()).unwrap_or(None));
+        if back2.as_ref() != Some(&u) {
+            ctx.fail("c20-derive-roundtrip-wire", &format!("{:?} bytes={:?} back={:?}", u, bytes.map(|b| hex(&b)), back2));
+        }
+        // a struct of another module must not deserialize as this one
+        if let OwnedTerm::Map(m) = &t {
+            let mut m = m.clone();
+            m.insert(atom("__struct__"), atom("Elixir.MyApp.Other"));
+            let foreign = OwnedTerm::Map(m);
+            if catch_unwind(|| erltf_serde::from_term::<User>(&foreign).is_ok()).unwrap_or(false) {
+                ctx.fail("c20-derive-accepts-foreign-struct", &format!("term={}", term_text(&foreign)));
+            }
+        }
+    }
+}
+
+pub fn run(ctx: &mut Ctx) {
+    ranges(ctx);
+    wrappers(ctx);
+    proplists(ctx);
+    derived(ctx);
+}
